@@ -2160,6 +2160,28 @@ def decorator_case(v, shape, N):
         if shape == "types-bare":
             opts = {}
         call = (lambda: f(x=df)) if shape == "types-kw" else (lambda: f(df))  # noqa: E731
+    elif shape in ("types-kwargs", "types-varargs1", "types-varargs2"):
+        # frames handed over through an annotated **kwargs / *args parameter are designated inputs like any other
+        from pandera.typing import DataFrame as _DF
+
+        class M(pa.DataFrameModel):  # noqa: F811
+            a: int = pa.Field(ge=lo)
+
+        if shape == "types-kwargs":
+            def body_b(**frames):
+                ran.append(1)
+                got.append(frames["x"])
+                return frames["x"]
+        else:
+            def body_b(*frames):
+                ran.append(1)
+                got.append(frames[0])
+                others["n"] = len(frames)
+                return frames[0]
+
+        body_b.__annotations__ = {"frames": _DF[M]}
+        f = check_types(**opts)(body_b)
+        call = {"types-kwargs": lambda: f(x=df), "types-varargs1": lambda: f(df), "types-varargs2": lambda: f(df, df)}[shape]
     elif shape == "none-kw":
         f = check_input(schema, **opts)(body)
         call = lambda: f(x=df)  # noqa: E731
@@ -2171,6 +2193,10 @@ def decorator_case(v, shape, N):
         call = lambda: f(x=df)  # noqa: E731
     elif shape == "int-pos":
         f = check_input(schema, 0, **opts)(body)
+        call = lambda: f(df)  # noqa: E731
+    elif shape in ("bound-none", "bound-name", "bound-int"):  # a bound method object is decorated (outside the class body)
+        g = {"bound-none": (), "bound-name": ("x",), "bound-int": (0,)}[shape]
+        f = check_input(schema, *g, **opts)(K().m1)
         call = lambda: f(df)  # noqa: E731
     elif shape == "method-none":
         K.m1 = check_input(schema, **opts)(K.m1)
@@ -2199,6 +2225,14 @@ def decorator_case(v, shape, N):
             got.append(x)
             return (1, x)
         f = check_output(schema, 1, **opts)(body2)
+        call = lambda: f(df)  # noqa: E731
+        out_kind = "tuple"
+    elif shape == "output-tuple-neg":  # the same element designated from the end
+        def body2n(x):
+            ran.append(1)
+            got.append(x)
+            return (1, x)
+        f = check_output(schema, -1, **opts)(body2n)
         call = lambda: f(df)  # noqa: E731
         out_kind = "tuple"
     elif shape == "output-dict":
@@ -2250,7 +2284,7 @@ def decorator_case(v, shape, N):
             asserts.append(("decorator/body_receives_validated", H.equal_to_snapshot(v, got[0], H.snapshot(direct["out"]))))
     if ran and others:
         # the arguments that are not designated reach the body exactly as the caller passed them
-        want = {"name-pos-varargs": {"more": (1, 2)}, "name-pos2-kwonly": {"p": 0, "flag": True}, "int-pos2-kwonly": {"p": 0, "flag": True},
+        want = {"types-varargs1": {"n": 1}, "types-varargs2": {"n": 2}, "name-pos-varargs": {"more": (1, 2)}, "name-pos2-kwonly": {"p": 0, "flag": True}, "int-pos2-kwonly": {"p": 0, "flag": True},
                 "name-pos2-catchall": {"p": 0, "extra": {"k": 1}}}.get(shape)
         if want is not None:
             asserts.append(("decorator/other_arguments_unchanged", v.holds(others == want)))
@@ -2266,7 +2300,9 @@ DECORATOR_SHAPES = ("none-pos", "none-kw", "name-pos", "name-kw", "int-pos", "me
                     "none-pos-opts", "io-opts", "name-pos-kw-default", "int-pos-kw-default", "none-pos-kw-default", "name-pos2-kwonly", "int-pos2-kwonly",
                     "name-pos2-catchall", "name-pos-varargs", "io-kw-default", "types-pos", "types-kw", "types-bare",
                     "name-pos-parse", "name-kw-parse", "int-pos-parse", "none-pos-parse", "io-parse", "method-name-parse", "name-pos-drop", "io-drop", "int-pos-drop",
-                    "types-pos-nonearg", "types-kw-nonearg", "none-pos-nonearg", "name-pos-nonearg")
+                    "types-pos-nonearg", "types-kw-nonearg", "none-pos-nonearg", "name-pos-nonearg",
+                    "bound-none", "bound-name", "bound-int", "types-kwargs", "types-varargs1", "types-varargs2", "output-tuple-neg", "output-parse", "output-tuple-parse", "output-tuple-neg-parse",
+                    "output-dict-parse")
 
 
 # ------------------------------------------------------------------ histories of non-transforming operations (C05)
